@@ -42,7 +42,7 @@ Proof. exact set_max_height_below_seen. Qed.
 (* stabilise from inside a node function or a handler panics at once and touches nothing; so does a
    further stabilise call on that state *)
 Theorem C19_nested_stabilise_panics :
-  forall arg s, st_status s <> NotStabilising -> run_effect arg EStabilise s = (Panic PNestedStabilise, s).
+  forall fuel arg s, st_status s <> NotStabilising -> run_effect fuel arg EStabilise s = (Panic PNestedStabilise, s).
 Proof. exact nested_stabilise_effect. Qed.
 
 Theorem C19_stabilise_while_stabilising_panics :
